@@ -23,10 +23,11 @@ use minijinja::{context, path_loader, Environment};
 use mjverif::*;
 
 fn main() {
+    let base_set = std::env::var_os("C17_BASE").is_some(); // an EMPTY base is a base too (the working directory)
     let base = std::env::var("C17_BASE").unwrap_or_default();
     let mut env = Environment::new();
     let loader = path_loader(base.clone());
-    if !base.is_empty() {
+    if base_set {
         env.set_loader(path_loader(base.clone()));
     }
     serve(2, |c| {
